@@ -55,6 +55,7 @@ def run(ctx):
         elif kind == "off":
             for w in range(3 if q else 6):
                 worlds.append({"kind": "off", "negative": 1 if w % 3 == 2 else 0, "seed": s * 100 + w})
+            worlds.append({"kind": "off", "mixed": 1, "seed": s * 100 + 70})    # positive and negative polygon groups and open groups on one object (orientation state across Clear)
         else:
             for w in range(4):
                 worlds.append({"kind": "rc", "seed": s * 100 + w})
